@@ -12,7 +12,11 @@ export GOFLAGS=-mod=mod GOPROXY=off GOSUMDB=off GOTOOLCHAIN=local
 cd "$here" || exit 2
 [ -x ./check ] || go1.26.8 build -o check ./cmd/check || exit 2
 names=("$@")
-if [ ${#names[@]} -eq 0 ]; then names=($(ls "$seeded" | grep -E '^C[0-9]{2}-')); fi
+if [ ${#names[@]} -eq 0 ]; then
+  for n in $(ls "$seeded" | grep -E '^C[0-9]{2}-'); do
+    grep -q '"status": "obsolete"' "$seeded/$n/meta.json" 2>/dev/null || names+=("$n")
+  done
+fi
 mkdir -p /tmp/wt
 for name in "${names[@]}"; do
   d=$seeded/$name
